@@ -508,15 +508,8 @@ class ChunkedDataDict(GenericEquality):
     def update_from_stream(self, stream):
         for cinst in stream:
             if getattr(cinst.key, "key", None) is not None:
-                # atom, or something similar.  use the key lookup.
-                # hack also... recreate the restriction; this is due to
-                # internal idiocy in ChunkedDataDict that will be fixed.
-                new_globals = (
-                    x
-                    for x in self._global_settings
-                    if x not in self._dict[cinst.key.key]
-                )
-                self._dict[cinst.key.key].extend(new_globals)
+                # atom, or something similar.  use the key lookup; the list
+                # for the key already holds every global chunk, in order.
                 self._dict[cinst.key.key].append(cinst)
             else:
                 self.add_global(cinst)
